@@ -57,7 +57,7 @@ class Job:
                  config='le', loop_contracts=None, owners=None, clause_map=None,
                  timeout=600, solver=None, extra_cbmc=(), extra_cc=(), canary=True,
                  function=None, kind='', replay=None, bounded=None, includes=(), ignore_funcs=(),
-                 assumptions=(), unwindset=None, no_dfcc=False, obj_bits=None, chunk=None, chunk_par=1, unwind=None, fallback=None, no_unwinding_assertions=False):
+                 assumptions=(), unwindset=None, no_dfcc=False, obj_bits=None, chunk=None, chunk_par=1, unwind=None, fallback=None, no_unwinding_assertions=False, probes=()):
         self.name = name
         self.src = src                  # text of the harness translation unit
         self.sources = list(sources)    # repository sources (relative to REPO) compiled in unmodified
@@ -88,6 +88,7 @@ class Job:
         self.chunk = chunk              # solve the CBMC properties in groups of this size with --slice-formula
         self.fallback = fallback        # Job (or callable returning one) to run when this obligation cannot be BUILT on the current tree
         self.no_unwinding_assertions = no_unwinding_assertions   # bounded stand-in that deliberately cuts a non-terminating loop
+        self.probes = list(probes)      # extra bounded runs of a FALLBACK: only their real (non-unwinding) failures count
         self.fallback_of = None         # set on the fallback job actually run: (name of the primary, reason)
 
     def ident(self):
@@ -314,6 +315,17 @@ def run_job(job, workroot, keep=False):
             if not real:
                 fres.status = 'undecided'
                 fres.reason = 'bounded fallback inconclusive: unwinding bound exceeded (%s)' % fres.fallback_note
+        # boundary probes of a bounded fallback (e.g. values at the top of the 16-bit length range with a short unwinding): a failure
+        # found there lies on a complete path and is a real counterexample; hitting the unwinding bound gives no information
+        if fres.status == 'ok':
+            for pj in fj.probes:
+                pres = _run_job_retries(pj, workroot, keep)
+                real = [p for p in pres.failed() if p.cls != 'unwind'] if pres.status == 'failed' else []
+                if real:
+                    pres.props = [p for p in pres.props if p.cls != 'unwind']
+                    pres.fallback_note = 'boundary probe of the fallback for %s' % job.name
+                    return pres
+                fres.warnings.append('boundary probe %s: %s' % (pj.name, 'no counterexample within the unwinding bound' if pres.status in ('failed', 'ok') else 'undecided (%s)' % pres.reason[:80]))
         return fres
     return res
 
